@@ -86,6 +86,11 @@ type Case struct {
 	// ColdStart: the client under test is not asked anything before the first step (its feature detection and
 	// caches are still empty when the history begins)
 	ColdStart bool `json:"cold_start,omitempty"`
+	// LookForm: the reference form in which the client under test is asked after the steps ("" digest | tag |
+	// tag+digest | default). It stays the same for the whole history, so the same question in the same form is
+	// asked before and after every mutation (a cached answer is keyed by what the client derives from that form);
+	// half of the generated list steps use it too.
+	LookForm string `json:"look_form,omitempty"`
 }
 
 // ---------------------------------------------------------------- generator
@@ -198,6 +203,7 @@ func gen(t *rapid.T, conc bool) Case {
 	}
 	c.Procs = rapid.SampledFrom([]int{0, 1, 2, 4}).Draw(t, "procs")
 	c.ColdStart = rapid.Bool().Draw(t, "cold_start")
+	c.LookForm = rapid.SampledFrom([]string{"", "tag+digest", "tag", "default", "tag+digest", ""}).Draw(t, "look_form")
 
 	// symbolic state, only used to bias choices (the interpreter makes every op total)
 	stored := map[string]bool{}
@@ -262,6 +268,12 @@ func gen(t *rapid.T, conc bool) Case {
 				op.RefForm = "tag+digest"
 			case 1:
 				op.RefForm = "default"
+			case 2, 3, 4, 5:
+				// the form the case keeps asking in
+				op.RefForm = c.LookForm
+				if c.LookForm == "tag" {
+					op.RefForm, op.ByTag = "", true
+				}
 			}
 			if op.Subject == 0 && rapid.IntRange(0, 3).Draw(t, "list_platform_on") == 0 {
 				op.Platform = rapid.IntRange(1, 2).Draw(t, "list_platform")
@@ -828,8 +840,11 @@ func (r *run) verify(mainToo bool) *evid.Violation {
 		for si := range r.u.subjects {
 			if r.lastMainList[si] >= 0 && r.lastMutation[si] > r.lastMainList[si] && r.c.Sys.Cache {
 				r.class("cache:list-mutate-list")
+				if r.c.LookForm != "" {
+					r.class("cache:list-mutate-list:" + r.c.LookForm + ":" + r.c.Sys.Kind)
+				}
 			}
-			if v := r.list(r.e.main, "through the client under test", ask{si: si}); v != nil {
+			if v := r.list(r.e.main, "through the client under test", ask{si: si, form: r.c.LookForm, byTag: r.c.LookForm == "tag"}); v != nil {
 				return v
 			}
 		}
@@ -1298,6 +1313,9 @@ func check(c Case, ev *evid.Collector) *evid.Violation {
 	viol = r.verify(!c.ColdStart)
 	if c.ColdStart {
 		r.class("sys:cold-start")
+	}
+	if c.LookForm != "" {
+		r.class("look-form:" + c.LookForm)
 	}
 	for i := 0; viol == nil && i < len(c.History) && !r.watchdog; i++ {
 		op := c.History[i]
